@@ -281,10 +281,11 @@ def stream_lex(ctx: Ctx, real: Real) -> Stream:
 	for fn, rec in corpus_sources():
 		cases.append(source_case(real, rng, rec.get('definition', 'py'), rec['source'], {'kind': f'corpus:{fn}'}, 6))
 	flavours = ['subset', 'subset', 'subset', 'wide', 'wide', 'hazard', 'over-indent', 'triple-single']
-	n = ctx.scale(160, 2500)
+	n = ctx.scale(160, 1400)
 	for i in range(n):
 		fl = flavours[i % len(flavours)]
-		src, desc = gen_source(rng, fl, 1 + (i * 7) % ctx.scale(12, 30))
+		# the list-based model indexes in O(offset): source sizes are kept where the driver stays within minutes
+		src, desc = gen_source(rng, fl, 1 + (i * 7) % ctx.scale(12, 14))
 		cases.append(source_case(real, rng, 'py', src, desc, 8))
 	for i in range(ctx.scale(30, 300)):
 		src = gen_gram_source(rng)
@@ -302,16 +303,16 @@ def stream_real(ctx: Ctx, real: Real) -> Stream:
 	cases = []
 	files = common.repo_py_files('rogw/tranp', 'tests/unit/rogw/tranp/implements/syntax')
 	rng.shuffle(files)
-	for f in files[:ctx.scale(10, 80)]:
+	for f in files[:ctx.scale(10, 60)]:
 		with open(f, encoding='utf-8') as fh:
 			text = fh.read()
 		lines = text.split('\n')
 		# whole small files, otherwise a window of whole lines (the list-based model is quadratic in the source length)
-		if len(text) > ctx.scale(2500, 6000):
+		if len(text) > ctx.scale(2500, 3000):
 			k = rng.randrange(len(lines))
 			acc: list[str] = []
 			size = 0
-			while k < len(lines) and size < ctx.scale(2500, 6000):
+			while k < len(lines) and size < ctx.scale(2500, 3000):
 				acc.append(lines[k])
 				size += len(lines[k]) + 1
 				k += 1
@@ -432,10 +433,10 @@ def search_cpython(ctx: Ctx, real: Real) -> SearchResult:
 		hist[f'corpus:{verdict}'] += 1
 		if verdict == 'bad':
 			report(key or '?', rec['source'], detail, f'corpus/{fn}')
-	n = ctx.scale(700, 12000)
+	n = ctx.scale(700, 8000)
 	for i in range(n):
 		opts = G.GenOpts(escape_hazards=0.02 if i % 4 == 0 else 0.0)
-		prog = G.gen_program(rng, opts, 1 + (i * 5) % ctx.scale(14, 40))
+		prog = G.gen_program(rng, opts, 1 + (i * 5) % ctx.scale(14, 30))
 		lay = G.gen_layout(rng, prog)
 		src = G.render(prog, lay)
 		res.cases += 1
@@ -480,10 +481,10 @@ def search_layout(ctx: Ctx, real: Real) -> SearchResult:
 	hist: Counter[str] = Counter()
 	seen: set[str] = set()
 	keys: set[str] = set()
-	n = ctx.scale(350, 6000)
+	n = ctx.scale(350, 3000)
 	for i in range(n):
 		opts = G.GenOpts()
-		prog = G.gen_program(rng, opts, 1 + (i * 3) % ctx.scale(14, 40))
+		prog = G.gen_program(rng, opts, 1 + (i * 3) % ctx.scale(14, 30))
 		lay = G.gen_layout(rng, prog)
 		src = G.render(prog, lay)
 		try:
@@ -570,7 +571,7 @@ def search_token_layout(ctx: Ctx, real: Real) -> SearchResult:
 	keys: set[str] = set()
 	T = real.TokenTypes
 	mk = lambda ty, s: real.Token(ty, s, real.Token.SourceMap(0, 0, 0, 0))
-	for i in range(ctx.scale(250, 4000)):
+	for i in range(ctx.scale(250, 2500)):
 		src, _ = gen_source(rng, 'subset', 1 + (i * 3) % 12)
 		try:
 			toks = real.lexers['py'].parse_impl(src)
@@ -651,7 +652,7 @@ def search_laws(ctx: Ctx, real: Real) -> SearchResult:
 	hist: Counter[str] = Counter()
 	seen: set[str] = set()
 	keys: set[str] = set()
-	n = ctx.scale(500, 8000)
+	n = ctx.scale(500, 5000)
 	for i in range(n):
 		r = i % 5
 		dn = 'py'
